@@ -17,6 +17,7 @@ import (
 	kit "verifkit"
 	"verifkit/gram"
 	"verifkit/shape"
+	"verifkit/wire"
 
 	"pgregory.net/rapid"
 )
@@ -155,6 +156,40 @@ func c03nsCheck(c c03nsCase) *kit.Verdict {
 	line := "sx " + strings.Join(args, " ")
 	if rep.TimedOut || rep.Exit != 0 {
 		return v.Failf("%s: exit=%d timed out=%v\nstderr: %s", line, rep.Exit, rep.TimedOut, clipN(rep.Stderr, 400))
+	}
+	// C01 / C05 on the real adapter: the probes captured on the wire are exactly the specification, from the requested source
+	{
+		base := strings.Fields(c.Cmd)[0]
+		subnet := map[bool]string{false: fmt.Sprintf("192.168.50.16/%d", c.Bits), true: fmt.Sprintf("10.8.0.16/%d", c.Bits)}[c.Tun]
+		spec := gram.Spec{CIDR: subnet, Ports: c.Ports}
+		want, _ := spec.Denote(cmdPortless(base))
+		got := map[gram.Probe]int{}
+		p, _ := gram.RefIPv4Target(subnet)
+		for _, f := range rep.Frames {
+			b, err := hex.DecodeString(f.Hex)
+			if err != nil || (f.Link && len(b) >= 14 && b[12] == 0x86 && b[13] == 0xdd) {
+				continue
+			}
+			d := wire.Decode(b, f.Link)
+			switch {
+			case base == "arp" && d.ARP != nil && d.ARP.Op == 1 && len(d.ARP.TPA) == 4:
+				if wire.MACString(d.ARP.SHA) == c03nsMAC && wire.IPString([4]byte{d.ARP.SPA[0], d.ARP.SPA[1], d.ARP.SPA[2], d.ARP.SPA[3]}) == c01SrcIP {
+					got[gram.Probe{IP: gram.BytesU32(d.ARP.TPA)}]++
+				}
+			case len(d.IPs) > 0 && p.Contains(gram.BytesU32(d.IPs[0].Dst[:])) && wire.IPString(d.IPs[0].Src) == c01SrcIP:
+				switch {
+				case base == "icmp" && d.ICMP != nil:
+					got[gram.Probe{IP: gram.BytesU32(d.IPs[0].Dst[:])}]++
+				case base == "udp" && d.UDP != nil:
+					got[gram.Probe{IP: gram.BytesU32(d.IPs[0].Dst[:]), Port: d.UDP.DstPort}]++
+				case base == "tcp" && d.TCP != nil:
+					got[gram.Probe{IP: gram.BytesU32(d.IPs[0].Dst[:]), Port: d.TCP.DstPort}]++
+				}
+			}
+		}
+		if diff := gram.DiffProbes(want, got); diff != "" {
+			return v.Failf("%s\nprobes captured on the real interface differ from the specification (C01): %s", line, diff)
+		}
 	}
 	if rep.WallMs < c03nsExitMs {
 		return v.Failf("%s\nthe process ran for %d ms only; the exit delay is %d ms (C16: no exit before the delay has elapsed)", line, rep.WallMs, c03nsExitMs)
